@@ -177,6 +177,32 @@ def reuse_after_rename_history():
     return specs, evos
 
 
+def twice_changed_history():
+    """the same attribute of one field raised in two different versions, an unrelated change in between: a direct
+    upgrade has both changes in one batch"""
+    def fld(name, t, **attrs):
+        return {'name': name, 'type': t, 'attrs': attrs, 'related': None}
+
+    def mdl(name, fields):
+        return {'name': name, 'table': 'vapp_%s' % name.lower(), 'unique_together': [], 'index_together': [],
+                'indexes': [], 'constraints': [], 'fields': [fld('id', 'AutoField', primary_key=True)] + fields}
+    spec0 = {'apps': [{'id': 'vapp', 'models': [mdl('Book', [fld('title', 'CharField', max_length=40)])]}]}
+    cf = lambda n: {'t': 'ChangeField', 'model': 'Book', 'field': 'title', 'ftype': None, 'initial': None,
+                    'attrs': [['max_length', str(n)]]}
+    evos = [[cf(80)],
+            [{'t': 'AddField', 'model': 'Book', 'field': 'isbn', 'ftype': 'CharField', 'initial': None,
+              'attrs': [['max_length', '13'], ['null', 'true']]}],
+            [cf(200)]]
+    sig = dbrig.sig_from_models(dbrig.build_models(spec0))
+    specs = [spec0]
+    for e in evos:
+        sig = sigs.real_simulate(sig, 'vapp', [sigs.real_mutation(m) for m in e])[1]
+        sp = dbrig.spec_from_sig(sig)
+        sp['apps'] = [a for a in sp['apps'] if a['id'] == 'vapp']
+        specs.append(sp)
+    return specs, evos
+
+
 def new_model_history():
     """a model that first appears in a later version (with a foreign key and an indexed column: its indexes are
     deferred SQL of the model creation), next to ordinary evolutions of an older model"""
@@ -268,7 +294,7 @@ def muts_of(e):
     return [m for _, _, ms in parts(0, e) for m in ms]
 
 
-SCRIPTED = [scripted_history, two_app_history, signature_only_history, new_model_history, readd_history, rename_model_history, reuse_after_rename_history]
+SCRIPTED = [scripted_history, two_app_history, signature_only_history, new_model_history, readd_history, rename_model_history, reuse_after_rename_history, twice_changed_history]
 
 
 def install(specs, evos, version):
